@@ -114,8 +114,9 @@ TEXTS = {
                   'a per-operand dtype oracle derived from the recipe resolution runs on every returned model.'),
         'note': ('The instruction generator is covered by two theorems over ALL plan entries (no consumer position is lost; '
                  'no instruction is invented; the three vertical rewrites are the only deviations and only at position 0 '
-                 'against an ADD_DEQUANTIZE producer). The end-to-end composition plan -> instructions -> performer down to '
-                 'the dtype each ORIGINAL OP finally reads is validated by correspondence + oracle, not proved. Axioms: none.'),
+                 'against an ADD_DEQUANTIZE producer); operand-level whole-run theorems of the performer cover untouched operands, '
+                 'in-place quantization and single insertions. Chains of re-targeted insertions on one tensor are validated '
+                 'by correspondence + oracle, not proved. Axioms: none.'),
     },
     'C04': {
         'level': ('Theorems on the plan model with parameters as provenance terms (all models, configs, stores): every '
